@@ -107,8 +107,9 @@ class V1Parser:
         if proxyStr != cls.PROXYSTR:
             raise InvalidProxyHeader()
 
-        with convertError(ValueError, InvalidNetworkProtocol):
-            networkProtocol, line = line.split(b" ", 1)
+        # The shortest valid line is b"PROXY UNKNOWN": nothing has to follow
+        # the protocol field.
+        networkProtocol, _, line = line.partition(b" ")
 
         if networkProtocol not in cls.ALLOWED_NET_PROTOS:
             raise InvalidNetworkProtocol()
